@@ -128,6 +128,10 @@ func runC19(c *Ctx) {
 
 	c.Rule("R19h", ruleTextExcludeScope, 1)
 	checkExcludeScope(c, "R19h")
+	c.Rule("R19m", ruleTextConfigComplete, 1)
+	checkConfigComplete(c, "R19m")
+	c.Rule("R19n", ruleTextDiffOptsForwarded, 4)
+	checkDiffOptsForwarded(c, "R19n")
 	c.Rule("R19k", ruleTextExtendReturns, 1)
 	checkExtendReturns(c, "R19k")
 	c.Rule("R19l", ruleTextSelectorSeparator, 1)
